@@ -33,11 +33,12 @@ RULE_CONVERT = (
     "associated units. non-trivial = the arm is not the identity (from != to) and the value is finite and non-zero; for the "
     "constructors: result Ok, finite, non-zero; distinct by (units, input bits)")
 RULE_SPEC = (
-    "every ordered pair (77) and every constructor triple (145) x K single inputs (first input 1.0; K=5 quick / 40 thorough, "
-    "moderate magnitudes, both signs, including non-positive speed/distance): the OUTPUT OF THE IMPLEMENTATION is judged in Coq "
+    "every ordered pair (77) x K single inputs (first input 1.0; K=5 quick / 40 thorough, moderate magnitudes, both signs); every "
+    "constructor triple (145) x [(1,1), (30,1000), ALL 16 sign combinations {+,0,-0,-}x{+,0,-0,-} of the two operands for Time::create "
+    "and Speed::create (8 sign probes for Energy::create), then K-1 random positive pairs]: the OUTPUT OF THE IMPLEMENTATION is judged in Coq "
     "by the specification in exact rational arithmetic (identity exact, odd and 2-homogeneous exactly, round trip within 0.1 %, "
-    "physical SI factor within 0.1 %, constructors within 0.31 % of distance/speed, distance/time, rate*distance, Err for "
-    "non-positive speed or distance); non-trivial = from != to, or any constructor case")
+    "physical SI factor within 0.1 %, constructors within 0.31 % of distance/speed, distance/time, rate*distance, Err whenever "
+    "speed <= 0 or distance <= 0 (Time::create) or time <= 0 (Speed::create), whatever the sign of the other operand); non-trivial = from != to, or any constructor case")
 
 ONE_BITS = "0x3ff0000000000000"
 
